@@ -5,6 +5,7 @@
 import Mathlib.Tactic.Linarith
 import Mathlib.Tactic.Ring
 import PV.Proofs.C04Lemmas
+import PV.Proofs.C04cLemmas
 import PV.Proofs.RealScalar
 import PV.Props.C01
 import PV.Spec.Propagate
@@ -235,5 +236,88 @@ theorem c04_derived_wf (f : List ℝ → ℝ) (g : List ℝ) (xs : List (Obs ℝ
 
 
 end constructor_and_propagation
+
+section closure_of_combinations
+
+open Scalar
+
+variable {α : Type} [Elem α]
+
+/-- every chain of a constructed observable has at least five configurations (the constructor's
+    "fewer than 5 samples" refusal), and the constructed observable carries no covariance input -/
+theorem c04_mk_len (samples : List (List α)) (names : List String) (idl : Option (List Idl)) (o : Obs α)
+    (h : mkObs samples names idl = .ok o) : (∀ r ∈ o.reps, 5 ≤ r.idl.len) ∧ o.covs = [] := by
+  obtain ⟨hlen, hil, hchk, hfew, reps, hM, hreps, hcovs⟩ := C04.mkObs_ok samples names idl o h
+  refine ⟨?_, hcovs⟩
+  intro r hr
+  rw [hreps] at hr
+  obtain ⟨t, ht, htr⟩ := C04.forall₂_mem _ _ _ (C04.mapM_ok _ _ _ hM) r hr
+  obtain ⟨_, _, hts⟩ := C04.mem_mkTriples samples names idl t ht
+  have := (C04.mkRep_ok t r htr).2.2.1
+  have := hfew _ hts
+  omega
+
+/-- C04 (closure): whatever `correlate(a, b)` returns satisfies the invariant, if `a` does -/
+theorem c04_correlate_wf (a b o : Obs α) (ha : Spec.wfC04 a = true) (h : correlate a b = .ok o) :
+    Spec.wfC04 o = true := by
+  obtain ⟨o', ho', rfl⟩ := C04.correlate_ok a b o h
+  rw [C04.wf_reweighted]
+  exact c04_mk_wf_corrected _ _ _ o' (fun il e => by cases e; exact C04.range_step_of_wf a ha) ho'
+
+/-- C04 (closure): whatever `merge_obs(l)` returns satisfies the invariant, if every member of `l` does -/
+theorem c04_merge_wf (l : List (Obs α)) (o : Obs α) (hl : ∀ x ∈ l, Spec.wfC04 x = true) (h : mergeObs l = .ok o) :
+    Spec.wfC04 o = true := by
+  obtain ⟨o', ho', rfl⟩ := C04.mergeObs_ok l o h
+  rw [C04.wf_reweighted]
+  refine c04_mk_wf_corrected _ _ _ o' ?_ ho'
+  intro il e s n st hm
+  cases e
+  obtain ⟨r, hr, hri⟩ := List.mem_map.1 hm
+  have hr' := (C04.perm_sortBy _ _).subset hr
+  obtain ⟨x, hx, hrx⟩ := List.mem_flatMap.1 hr'
+  exact C04.range_step_of_wf x (hl x hx) s n st (List.mem_map.2 ⟨r, hrx, hri⟩)
+
+
+/-- C04 (closure): whatever `reweight(w, [o])` returns satisfies the invariant, if `w` and `o` do
+    (both settings of `all_configs`) -/
+theorem c04_reweight_wf (w o res : Obs ℝ) (ac : Bool)
+    (hw : Spec.wfC04 w = true) (hw2 : ∀ q ∈ w.reps, 2 ≤ q.idl.len) (ho : Spec.wfC04 o = true)
+    (h : reweight1 w o ac = .ok res) : Spec.wfC04 res = true := by
+  obtain ⟨s, ws, tmp, norm, r, hs, htmp, hnorm, hr, rfl⟩ := C04.reweight1_ok w o res ac h
+  rw [C04.wf_reweighted]
+  have hstep : ∀ il, some (o.reps.map (·.idl)) = some il → ∀ s n st, Idl.range s n st ∈ il → st ≠ 0 := by
+    intro il e; cases e; exact C04.range_step_of_wf o ho
+  have htw := c04_mk_wf_corrected _ _ _ tmp hstep htmp
+  obtain ⟨htl, htc⟩ := c04_mk_len _ _ _ tmp htmp
+  have hnw : Spec.wfC04 norm = true ∧ (∀ q ∈ norm.reps, 2 ≤ q.idl.len) := by
+    rcases hnorm with rfl | ⟨ws', hn⟩
+    · exact ⟨hw, hw2⟩
+    · exact ⟨c04_mk_wf_corrected _ _ _ norm hstep hn, fun q hq => by have := (c04_mk_len _ _ _ norm hn).1 q hq; omega⟩
+  unfold applySite at hr
+  split at hr
+  · cases hr
+  · refine (c04_derived_wf _ _ [tmp, norm] _ r ?_ ?_ ?_ hr).1
+    · intro x hx
+      simp only [List.mem_cons, List.not_mem_nil, or_false] at hx
+      rcases hx with rfl | rfl
+      · exact htw
+      · exact hnw.1
+    · intro x hx
+      simp only [List.mem_cons, List.not_mem_nil, or_false] at hx
+      rcases hx with rfl | rfl
+      · intro q hq; have := htl q hq; omega
+      · exact hnw.2
+    · intro x hx c hc x' hx' c' hc' e
+      simp only [List.mem_cons, List.not_mem_nil, or_false] at hx hx'
+      have hcases : ∀ y, y = tmp ∨ y = norm → ∀ d ∈ y.covs, d ∈ norm.covs := by
+        intro y hy d hd
+        rcases hy with rfl | rfl
+        · rw [htc] at hd; cases hd
+        · exact hd
+      have := C04.covs_unique norm hnw.1 c (hcases x hx c hc) c' (hcases x' hx' c' hc') e
+      subst this
+      exact ⟨rfl, rfl⟩
+
+end closure_of_combinations
 
 end PV
